@@ -58,6 +58,11 @@ def init (n : Nat) : Shared :=
 /-- number of words chosen by `New(protocol)` -/
 def wordsOfProto (proto : Nat) : Nat := if proto > 2 then 32768 / 64 else 128 / 64
 
+/-- the capacity the PROPERTY prescribes for a protocol version ("1..127 for v1-2, 1..32767 for v3+": 128 / 32768
+    ids including the reserved id 0). Written from the property text, independent of `New` / `wordsOfProto`;
+    Proofs/C08 `C08_capacity_by_protocol` proves that the generator `New(protocol)` builds has exactly this capacity. -/
+def specCap (proto : Nat) : Nat := if proto ≤ 2 then 128 else 32768
+
 /-- `(offset+1)%s.numBuckets` with `offset uint32`: the increment wraps at 2^32, then `% numBuckets` -/
 def nextOffset (n o : Nat) : Nat := (o + 1) % 4294967296 % n
 
